@@ -27,6 +27,12 @@ type CaseC struct {
 	// (later blocks do not signal), arm A probed at ProbeA after A[..ProbeA-1],
 	// then arm B delivered up to ProbeB-1 (longer: reorg) and probed at ProbeB.
 	Kind   string `json:"kind"` // linear | fork
+	// Flavor of the probe transaction: "bip68" (relative lock-time of the
+	// input not met) or "opcsv" (spends an output locked by "20
+	// OP_CHECKSEQUENCEVERIFY" with a sequence number that has the disable bit
+	// set: fine while the opcode is still OP_NOP3).  In fork cases arm A is
+	// probed with "bip68" and arm B with Flavor.
+	Flavor string `json:"flavor"`
 	Votes  []int  `json:"votes,omitempty"`
 	Probe  int    `json:"probe,omitempty"`
 	ArmA   []int  `json:"arm_a,omitempty"`
@@ -73,21 +79,32 @@ func (l *labLine) hdrs() []refbip9.Hdr {
 	return out
 }
 
+// csvScript is "20 OP_CHECKSEQUENCEVERIFY" (OP_NOP3 before activation).
+var csvScript = []byte{0x01, 0x14, 0xb2}
+
 func (l *labLine) extend(vote int, tag uint32) *lab.Blk {
-	b := lab.Build(l.p, l.tip(), lab.BOpt{Version: voteVersion(vote), Tag: tag})
+	h := int32(len(l.blocks))
+	sub := lab.Subsidy(h, l.p)
+	outs := []*wire.TxOut{{Value: sub - sub/2, PkScript: lab.OpTrue}, {Value: sub / 2, PkScript: csvScript}}
+	b := lab.Build(l.p, l.tip(), lab.BOpt{Version: voteVersion(vote), Tag: tag, CoinbaseOuts: outs})
 	l.blocks = append(l.blocks, b)
 	return b
 }
 
 // probe builds (without appending) the block after the tip that carries the
 // BIP68-violating transaction.
-func (l *labLine) probe(tag uint32) *lab.Blk {
+func (l *labLine) probe(tag uint32, flavor string) *lab.Blk {
 	h := len(l.blocks) // height of the probe block
 	src := l.blocks[h-3]
 	cb := src.Msg.Transactions[0]
 	tx := wire.NewMsgTx(2)
-	tx.AddTxIn(&wire.TxIn{PreviousOutPoint: wire.OutPoint{Hash: lab.TxID(cb), Index: 0}, Sequence: 20})
-	tx.AddTxOut(&wire.TxOut{Value: cb.TxOut[0].Value, PkScript: lab.OpTrue})
+	if flavor == "opcsv" {
+		tx.AddTxIn(&wire.TxIn{PreviousOutPoint: wire.OutPoint{Hash: lab.TxID(cb), Index: 1}, Sequence: 0xffffffff})
+		tx.AddTxOut(&wire.TxOut{Value: cb.TxOut[1].Value, PkScript: lab.OpTrue})
+	} else {
+		tx.AddTxIn(&wire.TxIn{PreviousOutPoint: wire.OutPoint{Hash: lab.TxID(cb), Index: 0}, Sequence: 20})
+		tx.AddTxOut(&wire.TxOut{Value: cb.TxOut[0].Value, PkScript: lab.OpTrue})
+	}
 	return lab.Build(l.p, l.tip(), lab.BOpt{Version: topBits, Tag: tag, Txs: []*wire.MsgTx{tx}})
 }
 
@@ -110,8 +127,12 @@ func runCaseC(c CaseC) (bad string, broken string) {
 		}
 		return ""
 	}
-	probeAt := func(l *labLine, tag uint32) string {
-		pb := l.probe(tag)
+	probeAt := func(l *labLine, tag uint32, flavor string) string {
+		wantCode := blockchain.ErrUnfinalizedTx
+		if flavor == "opcsv" {
+			wantCode = blockchain.ErrScriptValidation
+		}
+		pb := l.probe(tag, flavor)
 		want := refbip9.StateAfter(l.hdrs(), def, net)
 		_, orphan, err := ch.BC.ProcessBlock(pb.Block(), blockchain.BFNone)
 		if orphan {
@@ -121,9 +142,9 @@ func runCaseC(c CaseC) (bad string, broken string) {
 		if want == refbip9.Active {
 			var re blockchain.RuleError
 			if err == nil {
-				return fmt.Sprintf("block %d is the reference's ACTIVE period but a BIP68-violating transaction was accepted in it", pb.Height)
+				return fmt.Sprintf("block %d is the reference's ACTIVE period but a CSV-violating (%s) transaction was accepted in it", pb.Height, flavor)
 			}
-			if !errors.As(err, &re) || re.ErrorCode != blockchain.ErrUnfinalizedTx {
+			if !errors.As(err, &re) || re.ErrorCode != wantCode {
 				return fmt.Sprintf("probe block at height %d (ACTIVE) rejected with unexpected error %v", pb.Height, err)
 			}
 			if best == pb.Hash {
@@ -132,7 +153,7 @@ func runCaseC(c CaseC) (bad string, broken string) {
 			return ""
 		}
 		if err != nil {
-			return fmt.Sprintf("block %d is in the reference's %v period (CSV rules not in force) but the probe block was rejected: %v", pb.Height, want, err)
+			return fmt.Sprintf("block %d is in the reference's %v period (CSV rules not in force) but the %s probe block was rejected: %v", pb.Height, want, flavor, err)
 		}
 		if best != pb.Hash {
 			return fmt.Sprintf("accepted probe block at height %d (state %v) is not the best block", pb.Height, want)
@@ -151,7 +172,7 @@ func runCaseC(c CaseC) (bad string, broken string) {
 				return "", s
 			}
 		}
-		return probeAt(l, 7), ""
+		return probeAt(l, 7, c.Flavor), ""
 	case "fork":
 		common := &labLine{p: p, blocks: []*lab.Blk{lab.Genesis(p)}}
 		for h := 1; h <= 3; h++ {
@@ -180,7 +201,7 @@ func runCaseC(c CaseC) (bad string, broken string) {
 		if s != "" {
 			return "", s
 		}
-		if s := probeAt(a, 8); s != "" {
+		if s := probeAt(a, 8, "bip68"); s != "" {
 			return "arm A: " + s, ""
 		}
 		b, s := arm(c.ArmB, c.ProbeB-1, 2)
@@ -190,7 +211,7 @@ func runCaseC(c CaseC) (bad string, broken string) {
 		if ch.BC.BestSnapshot().Hash != b.tip().Hash {
 			return "", "arm B did not become the best chain"
 		}
-		if s := probeAt(b, 9); s != "" {
+		if s := probeAt(b, 9, c.Flavor); s != "" {
 			return "arm B (after reorganizing from arm A): " + s, ""
 		}
 		return "", ""
@@ -213,7 +234,10 @@ func casesC() []CaseC {
 	// height 6..13.
 	for x := 0; x < 64; x++ {
 		for pr := 6; pr <= 13; pr++ {
-			out = append(out, CaseC{Kind: "linear", Votes: bitsOf(x, 6), Probe: pr})
+			out = append(out, CaseC{Kind: "linear", Flavor: "bip68", Votes: bitsOf(x, 6), Probe: pr})
+		}
+		for _, pr := range []int{8, 9, 11, 12} { // around the two possible activation heights
+			out = append(out, CaseC{Kind: "linear", Flavor: "opcsv", Votes: bitsOf(x, 6), Probe: pr})
 		}
 	}
 	// forks after height 3 (which signals): arm votes for heights 4,5 free,
@@ -227,7 +251,11 @@ func casesC() []CaseC {
 		for b := 0; b < 8; b++ {
 			for _, pa := range []int{8, 9} {
 				for _, pb := range []int{11, 12} {
-					out = append(out, CaseC{Kind: "fork", ArmA: armOf(a), ArmB: armOf(b), ProbeA: pa, ProbeB: pb})
+					fl := "bip68"
+					if (a+b)%2 == 1 {
+						fl = "opcsv"
+					}
+					out = append(out, CaseC{Kind: "fork", Flavor: fl, ArmA: armOf(a), ArmB: armOf(b), ProbeA: pa, ProbeB: pb})
 				}
 			}
 		}
